@@ -13,7 +13,9 @@ Conventions
   `PianorollSequence.set_length` / `BasePerformance.set_length` with a negative length mutate and
   then fail their `assert`; `rstep`/`pstep` return `assertionError` and `rstepSkip`/`pstepSkip`
   continue from the mutated state, as the Python object does.
-* Slices are unit stride (`s[i:j]`, either bound possibly `None`, negative or past the end).
+* Slices: unit stride `s[i:j]` (`Op.slice`, either bound possibly `None`, negative or past the
+  end) and extended slices `s[i:j:k]` with an explicit stride (`Op.sliceStep`, CPython's
+  `slice.indices` for any `k`, `ValueError` for `k = 0`).
 * Python list primitives are modelled once (`pySlice`, `pyDelSlice`, `pyIndex`, `pyRepeat`,
   `pyRange`) with CPython's clamping rules (`slice.indices`). -/
 namespace NSV.C17
@@ -65,6 +67,39 @@ def pyIndex (l : List α) (i : Int) : Except Err α :=
 
 /-- `[a] * k` (empty for `k ≤ 0`) -/
 def pyRepeat (a : α) (k : Int) : List α := List.replicate k.toNat a
+
+/-! extended slices `l[i:j:k]`: CPython `PySlice_Unpack` / `PySlice_AdjustIndices`
+(= `slice(i, j, k).indices(len)`), `k ≠ 0` -/
+
+/-- one explicit bound: a negative bound counts from the end and is clamped from below at `lower`,
+a non-negative one is clamped from above at `upper`; `(lower, upper)` is `(0, len)` for a positive
+stride and `(-1, len - 1)` for a negative one -/
+def clampStep (len : Nat) (neg : Bool) (i : Int) : Int :=
+  let lower : Int := if neg then -1 else 0
+  let upper : Int := if neg then (len : Int) - 1 else len
+  if i < 0 then (if i + len < lower then lower else i + len)
+  else (if i > upper then upper else i)
+
+/-- `slice(i, j, k).indices(len)[0]` -/
+def stepLo (len : Nat) (k : Int) : Option Int → Int
+  | none => if k < 0 then (len : Int) - 1 else 0
+  | some i => clampStep len (decide (k < 0)) i
+
+/-- `slice(i, j, k).indices(len)[1]` -/
+def stepHi (len : Nat) (k : Int) : Option Int → Int
+  | none => if k < 0 then -1 else len
+  | some j => clampStep len (decide (k < 0)) j
+
+/-- `len(range(lo, hi, k))` -/
+def stepCount (lo hi k : Int) : Nat :=
+  if k < 0 then (if hi < lo then ((lo - hi - 1) / (-k) + 1).toNat else 0)
+  else (if lo < hi then ((hi - lo - 1) / k + 1).toNat else 0)
+
+/-- `l[i:j:k]`, `k ≠ 0`: the elements at `lo, lo + k, lo + 2k, …`.  Every index is inside the list
+(`pySliceStep_spec` in `Proofs/C17.lean`), so the `filterMap` never drops anything. -/
+def pySliceStep (l : List α) (i j : Option Int) (k : Int) : List α :=
+  (List.range (stepCount (stepLo l.length k i) (stepHi l.length k j) k)).filterMap
+    (fun (m : Nat) => l[(stepLo l.length k i + (m : Int) * k).toNat]?)
 
 /-- `list(range(a, b))` -/
 def pyRange (a b : Int) : List Int := (List.range (b - a).toNat).map (fun (k : Nat) => a + (k : Int))
@@ -183,6 +218,7 @@ inductive Op (α : Type)
   | append (e : α)
   | setLength (n : Int) (fromLeft : Bool)
   | slice (i j : Option Int)
+  | sliceStep (i j : Option Int) (k : Int)
   | incRes (k : Int) (fill : Option α)
   | deepcopy
   | reinit (events : List α) (start spb spq : Int)
@@ -196,6 +232,10 @@ def step (c : Cls α) (s : Seq α) : Op α → Except Err (Seq α)
   | .setLength n fl => .ok (setLength c s n fl)
   | .slice i j =>
       fromEventList c (pySlice s.events i j) (s.start + (sliceLo s.events.length i : Int)) s.spb s.spq
+  | .sliceStep i j k =>
+      -- `self._events.__getitem__(key)` raises "slice step cannot be zero" before anything else
+      if k = 0 then .error .valueError
+      else fromEventList c (pySliceStep s.events i j k) (s.start + stepLo s.events.length k i) s.spb s.spq
   | .incRes k fill => .ok (incRes c s k fill)
   | .deepcopy => fromEventList c s.events s.start s.spb s.spq
   | .reinit ev st b q => fromEventList c ev st b q
@@ -233,6 +273,7 @@ inductive LOp
   | append (m : Int) (c : String)
   | setLength (n : Int)
   | slice (i j : Option Int)
+  | sliceStep (i j : Option Int) (k : Int)
   | incRes (k : Int)
   | deepcopy
   | init (mev : List Int) (ms mb mq : Int) (cev : List String) (cs cb cq : Int)
@@ -248,6 +289,10 @@ def lstep (l : LeadSheet) : LOp → Except Err LeadSheet
   | .slice i j => do
       let m' ← step melodyCls l.melody (.slice i j)
       let c' ← step chordCls l.chords (.slice i j)
+      mkLeadSheet m' c'
+  | .sliceStep i j k => do
+      let m' ← step melodyCls l.melody (.sliceStep i j k)
+      let c' ← step chordCls l.chords (.sliceStep i j k)
       mkLeadSheet m' c'
   | .incRes k => .ok ⟨incRes melodyCls l.melody k none, incRes chordCls l.chords k none⟩
   | .deepcopy => do
@@ -469,5 +514,65 @@ def Perf.numSteps (p : Perf) : Int := numStepsOf p.events
 def Perf.stop (p : Perf) : Int := p.start + p.numSteps
 def Perf.steps (p : Perf) : List Int := stepsFrom p.start p.events
 def Perf.index (p : Perf) (i : Int) : Except Err PEvent := pyIndex p.events i
+
+/-! ### NotePerformance
+
+Events are 4-tuples `(TIME_SHIFT, NOTE_ON, VELOCITY, DURATION)` of `PerformanceEvent`s; the model
+keeps the four values.  `append` only checks `isinstance(event, tuple)`; `set_length` is a
+documented no-op ("This is not actually implemented"); `truncate`, `__len__`, `__getitem__`,
+`__iter__`, `start_step`, `end_step = start_step + num_steps` are inherited from BasePerformance;
+`num_steps` and `steps` are overridden. -/
+structure NEvent where
+  shift : Int
+  pitch : Int
+  vel : Int
+  dur : Int
+deriving DecidableEq, Repr
+
+structure NPerf where
+  events : List NEvent
+  start : Int
+  maxShift : Int
+deriving Repr
+
+inductive NOp
+  | append (e : NEvent)
+  | appendBad
+  | setLength (n : Int) (fromLeft : Bool)
+  | truncate (n : Int)
+  | deepcopy
+deriving Repr
+
+def nstep (p : NPerf) : NOp → Except Err NPerf
+  | .append e => .ok { p with events := p.events ++ [e] }
+  | .appendBad => .error .valueError
+  | .setLength _ _ => .ok p
+  | .truncate n => .ok { p with events := pySlice p.events none (some n) }
+  | .deepcopy => .ok p
+
+def nstepSkip (p : NPerf) (op : NOp) : NPerf :=
+  match nstep p op with
+  | .ok p' => p'
+  | .error _ => p
+
+def nrunSkip (p : NPerf) (ops : List NOp) : NPerf := ops.foldl nstepSkip p
+
+def shiftSum : List NEvent → Int
+  | [] => 0
+  | e :: rest => e.shift + shiftSum rest
+
+/-- `num_steps`: every time shift plus the duration of the last note -/
+def NPerf.numSteps (p : NPerf) : Int :=
+  shiftSum p.events + (match p.events.getLast? with | some e => e.dur | none => 0)
+
+/-- `steps`: `step += event[0].event_value; result.append(step)` -/
+def nstepsFrom : Int → List NEvent → List Int
+  | _, [] => []
+  | st, e :: rest => (st + e.shift) :: nstepsFrom (st + e.shift) rest
+
+def NPerf.len (p : NPerf) : Nat := p.events.length
+def NPerf.stop (p : NPerf) : Int := p.start + p.numSteps
+def NPerf.steps (p : NPerf) : List Int := nstepsFrom p.start p.events
+def NPerf.index (p : NPerf) (i : Int) : Except Err NEvent := pyIndex p.events i
 
 end NSV.C17
